@@ -46,7 +46,7 @@ def realise(cin, variant):
     if lead or trail:
         # days outside the span: present in the frame, with temperature but without usage; both entry points are exercised
         entry = "both"
-        days = pd.date_range(days[0] - pd.Timedelta(days=lead), periods=S + lead + trail, freq="D")
+        days = pd.date_range((days[0].tz_localize(None) - pd.Timedelta(days=lead)).tz_localize(tz), periods=S + lead + trail, freq="D")   # local midnights
         T = np.concatenate([50.0 + rng.normal(0, 3, lead), T, 50.0 + rng.normal(0, 3, trail)])
         obs = np.concatenate([np.full(lead, np.nan), obs, np.full(trail, np.nan)])
         omiss = {k + lead for k in omiss}
